@@ -11,6 +11,7 @@ CONSTANTS
  MaxServes = 2
  MaxApplies = 1
  Faults = FALSE
+ KeepHist = TRUE
  MaxFaults = 3
 INVARIANT LogNoRepeats
 INVARIANT LogEndRecorded
